@@ -18,6 +18,7 @@ typedef struct tctx {
     int tid; uint64_t script_seed, yield_seed; int nops; int yield_pct; bool concurrent;
     int table_kind; uint64_t digest; uint64_t opcount[OP_N]; uint64_t model_mismatch; char first_mismatch[256];
     ival* iv; int niv;
+    uint64_t odd_clocks, decodes_without_lang_out;
 } tctx;
 static uint64_t g_clk;
 static pthread_barrier_t g_bar;
@@ -48,6 +49,9 @@ static void* worker(void* p) {
         case OP_CREATE: {
             uint8_t script[19]; pv_randbytes(&r, script, 19); pv_set_rand_script(script, 19);
             pv_w->time_value = PV_EPOCH + pv_rand64(&r) % (1024 * PV_STEP);
+            /* clocks fail now and then: the error value (time_t)-1, zero, a date before the epoch, far future; a fault in one thread's
+             * clock must stay that thread's business */
+            if (pv_randn(&r, 16) == 0) { static const uint64_t ODD[] = { UINT64_MAX, 0, 1, PV_EPOCH - 1, 1ull << 63, UINT64_MAX - 1, 0xFFFFFFFFull }; pv_w->time_value = ODD[pv_randn(&r, sizeof ODD / sizeof *ODD)]; c->odd_clocks++; }
             unsigned f = pv_randn(&r, 4);
             if (c->table_kind) pv_in_lib = 1;             /* lets the interposed libc time() return the scripted value */
             int st = polyseed_create(f, &S[sl]);
@@ -64,8 +68,10 @@ static void* worker(void* p) {
                 char ph[2048]; pv_m_encode(&m, L, coin, ph, sizeof ph);
                 if (pv_randn(&r, 8) == 0) coin ^= 1;
                 const polyseed_lang* lo = NULL;
-                st = op == OP_DECODE ? polyseed_decode(ph, (polyseed_coin)coin, &lo, &S[sl]) : polyseed_decode_explicit(ph, (polyseed_coin)coin, L->lib, &S[sl]);
-                if (st == POLYSEED_OK && op == OP_DECODE) T = pv_mix(T, pv_hash_str(polyseed_get_lang_name_en(lo)));
+                bool want_lang = pv_randn(&r, 2);          /* lang_out is optional */
+                if (op == OP_DECODE && !want_lang) c->decodes_without_lang_out++;
+                st = op == OP_DECODE ? polyseed_decode(ph, (polyseed_coin)coin, want_lang ? &lo : NULL, &S[sl]) : polyseed_decode_explicit(ph, (polyseed_coin)coin, L->lib, &S[sl]);
+                if (st == POLYSEED_OK && op == OP_DECODE && want_lang) T = pv_mix(T, pv_hash_str(polyseed_get_lang_name_en(lo)));
             }
             T = pv_mix(T, (uint64_t)st);
             if (st == POLYSEED_OK) M[sl] = m; else S[sl] = NULL;
@@ -143,7 +149,7 @@ static void run_rounds(uint64_t idx, pv_rng* rng) {
      * initialised under contention here */
     for (int t = 0; t < nt; ++t) {
         memset(&solo[t], 0, sizeof solo[t]); solo[t].tid = t; solo[t].script_seed = base + (uint64_t)t * 1315423911u; solo[t].nops = nops; solo[t].concurrent = false; solo[t].table_kind = kind;
-        conc[t] = solo[t]; conc[t].concurrent = true; conc[t].yield_pct = 20; conc[t].yield_seed = base ^ idx; conc[t].digest = 0; conc[t].model_mismatch = 0;
+        conc[t] = solo[t]; conc[t].concurrent = true; conc[t].yield_pct = 20; conc[t].yield_seed = base ^ idx; conc[t].digest = 0; conc[t].model_mismatch = 0; conc[t].odd_clocks = 0; conc[t].decodes_without_lang_out = 0;
         memset(conc[t].opcount, 0, sizeof conc[t].opcount);
         conc[t].iv = malloc(sizeof(ival) * (size_t)(nops * 2 + 8)); conc[t].niv = 0;
         pthread_create(&th[t], NULL, worker, &conc[t]);
@@ -178,6 +184,7 @@ static void run_rounds(uint64_t idx, pv_rng* rng) {
     for (int t = 0; t < nt; ++t) {
         PV_COUNT("evaluations", (uint64_t)nops);
         for (int o = 0; o < OP_N; ++o) pv_countf(conc[t].opcount[o], "ops.%s", OPN[o]);
+        PV_COUNT("ops.create_with_failing_or_odd_clock", conc[t].odd_clocks); PV_COUNT("ops.decode_with_lang_out_NULL", conc[t].decodes_without_lang_out);
         if (solo[t].model_mismatch) pv_violation("C20/solo-run-differs-from-model", "thread script %d alone: %s", t, solo[t].first_mismatch);
         if (conc[t].digest != solo[t].digest) pv_violation("C20/concurrent-result-differs-from-serial", "round %llu, %d threads, thread %d: transcript digest %016llx concurrently, %016llx alone%s%s",
                 (unsigned long long)idx, nt, t, (unsigned long long)conc[t].digest, (unsigned long long)solo[t].digest, conc[t].model_mismatch ? "; first model mismatch: " : "", conc[t].model_mismatch ? conc[t].first_mismatch : "");
